@@ -1871,6 +1871,13 @@ pub fn families(check: &str, tier: &str) -> Vec<Box<dyn Family>> {
                     }
                 })),
                 sf("c11", &wf_seeds(), &bases[..nb], Box::new(move |s, c, ctx| o2::c11_dense(&s.text, ws, c, None, ctx))),
+                // non-ASCII identifiers and literals: lines are longer in bytes than in characters; the
+                // wrapper counts bytes and so does the measure
+                pf("c11bytes", &g(dt), dt, &bases[..1], Box::new(move |_g, toks, c, ctx| {
+                    let t = progs::base_texts(toks);
+                    o2::c11_dense_bytes(&o2::non_ascii_variant(&t[1]), ws, c, c11_tag(toks), ctx);
+                })),
+                sf("c11bytes", &wf_seeds(), &bases[..1], Box::new(move |s, c, ctx| o2::c11_dense_bytes(&o2::non_ascii_variant(&s.text), ws, c, None, ctx))),
                 tf("c11lits", two_lits(), &bases[..1], wf_lits_box(Box::new(move |x, c, ctx| o2::c11_dense(x, ws, c, Some("multi-line-literals"), ctx)))),
                 // single logical lines of several thousand tokens (generated tables): budgets of the search
                 // (iteration limit) must not make the outcome depend on the width
@@ -2125,7 +2132,7 @@ pub fn replay(case: &Value, ctx: &mut Ctx) -> bool {
             ctx,
         ),
         "c10_linear" => o2::c10_linear(&input, &[case["ci"].as_u64().unwrap_or(2) as u8], &c, ctx),
-        "c11" => o2::c11_dense(
+        "c11" => o2::c11_dense_bytes(
             &input,
             &[case["w1"].as_u64().unwrap_or(30) as u32, case["w2"].as_u64().unwrap_or(120) as u32],
             &c,
